@@ -677,4 +677,7 @@ WITNESSES = [
      "old": "\t\tif (root->lchild && (!root->rchild || root->lchild->len < root->rchild->len)) {", "new": "\t\tif (root->lchild) {"},
     {"id": "C02.w14-remove-pulls-up-longer-child", "rule": "C02.R4", "file": TRIE,
      "old": "\t\tif (root->lchild && (!root->rchild || root->lchild->len < root->rchild->len)) {", "new": "\t\tif (root->lchild && (!root->rchild || root->lchild->len > root->rchild->len)) {"},
+    {"id": "C02.w15-src_remove-returns-at-first-empty-family", "rule": "C02.R3", "file": TP,
+     "old": "\t\tpthread_rwlock_wrlock(&(pfx_table->lock));\n\t\tif (*root) {\n\t\t\tint rtval = pfx_table_remove_id(pfx_table, root, *root, socket, 0);",
+     "new": "\t\tpthread_rwlock_wrlock(&(pfx_table->lock));\n\t\tif (!*root) {\n\t\t\tpthread_rwlock_unlock(&pfx_table->lock);\n\t\t\treturn PFX_SUCCESS;\n\t\t}\n\t\tif (*root) {\n\t\t\tint rtval = pfx_table_remove_id(pfx_table, root, *root, socket, 0);"},
 ]
